@@ -19,10 +19,12 @@ use std::net::{IpAddr, Ipv4Addr};
 use std::rc::Rc;
 use std::time::Duration;
 use tokio::sync::Notify;
-use turmoil::net::UdpSocket;
+use tokio::io::AsyncReadExt;
+use turmoil::net::{TcpListener, TcpStream, UdpSocket};
 use turmoil::verif::Decision;
 
 const PORT: u16 = 9000;
+const TCP_PORT: u16 = 9100;
 
 #[derive(Clone)]
 enum Sel {
@@ -154,6 +156,11 @@ fn run_case(case: &Value) -> Value {
     let recv_log: Rc<RefCell<Vec<Value>>> = Rc::new(RefCell::new(Vec::new()));
     let errs: Rc<RefCell<Vec<Value>>> = Rc::new(RefCell::new(Vec::new()));
     let step_no = Rc::new(RefCell::new(0u64));
+    // TCP carriers (oracle-only flavours): [step, host, id, from] for every 8-byte frame read,
+    // and [step, host, what, conn, detail] for connect/write results
+    let tcp_recv: Rc<RefCell<Vec<Value>>> = Rc::new(RefCell::new(Vec::new()));
+    let tcp_ev: Rc<RefCell<Vec<Value>>> = Rc::new(RefCell::new(Vec::new()));
+    let use_tcp = case["cfg"]["tcp"].as_bool().unwrap_or(false);
 
     for &h in &reg_order {
         let ctl = ctls[h].clone();
@@ -161,14 +168,40 @@ fn run_case(case: &Value) -> Value {
         let errs = errs.clone();
         let step_no = step_no.clone();
         let ips2 = ips.clone();
+        let tcp_recv = tcp_recv.clone();
+        let tcp_ev = tcp_ev.clone();
         sim.host(format!("h{h}"), move || {
             let ctl = ctl.clone();
             let recv_log = recv_log.clone();
             let errs = errs.clone();
             let step_no = step_no.clone();
             let ips = ips2.clone();
+            let tcp_recv = tcp_recv.clone();
+            let tcp_ev = tcp_ev.clone();
             async move {
                 let sock = UdpSocket::bind((IpAddr::V4(Ipv4Addr::UNSPECIFIED), PORT)).await?;
+                let conns: Rc<RefCell<std::collections::BTreeMap<u64, Rc<TcpStream>>>> =
+                    Rc::new(RefCell::new(std::collections::BTreeMap::new()));
+                if use_tcp {
+                    let lis = TcpListener::bind((IpAddr::V4(Ipv4Addr::UNSPECIFIED), TCP_PORT)).await?;
+                    let (tcp_recv, step_no, ips) = (tcp_recv.clone(), step_no.clone(), ips.clone());
+                    tokio::task::spawn_local(async move {
+                        loop {
+                            let Ok((mut s, peer)) = lis.accept().await else { break };
+                            let (tcp_recv, step_no, ips) = (tcp_recv.clone(), step_no.clone(), ips.clone());
+                            tokio::task::spawn_local(async move {
+                                let mut frame = [0u8; 8];
+                                loop {
+                                    match s.read_exact(&mut frame).await {
+                                        Ok(_) => tcp_recv.borrow_mut().push(json!([
+                                            *step_no.borrow(), h, u64::from_le_bytes(frame), host_index(peer.ip(), &ips)])),
+                                        Err(_) => break,
+                                    }
+                                }
+                            });
+                        }
+                    });
+                }
                 let mut buf = [0u8; 64];
                 loop {
                     ctl.notify.notified().await;
@@ -192,6 +225,35 @@ fn run_case(case: &Value) -> Value {
                                 payload.extend_from_slice(&now.to_le_bytes());
                                 if let Err(e) = sock.send_to(&payload, (ips[dst], PORT)).await {
                                     errs.borrow_mut().push(json!([h, id, vharness::err_kind(&e)]));
+                                }
+                            }
+                            "tcp_connect" => {
+                                let dst = cmd[1].as_u64().unwrap() as usize;
+                                let cid = cmd[2].as_u64().unwrap();
+                                let (conns, tcp_ev, step_no, ip) = (conns.clone(), tcp_ev.clone(), step_no.clone(), ips[dst]);
+                                tokio::task::spawn_local(async move {
+                                    let r = TcpStream::connect((ip, TCP_PORT)).await;
+                                    let st = *step_no.borrow();
+                                    match r {
+                                        Ok(s) => {
+                                            conns.borrow_mut().insert(cid, Rc::new(s));
+                                            tcp_ev.borrow_mut().push(json!([st, h, "connected", cid, ""]));
+                                        }
+                                        Err(e) => tcp_ev.borrow_mut().push(json!([st, h, "connect_err", cid, vharness::err_kind(&e)])),
+                                    }
+                                });
+                            }
+                            "tcp_write" => {
+                                let cid = cmd[1].as_u64().unwrap();
+                                let id = cmd[2].as_u64().unwrap();
+                                let s = conns.borrow().get(&cid).cloned();
+                                let st = *step_no.borrow();
+                                match s {
+                                    Some(s) => match s.try_write(&id.to_le_bytes()) {
+                                        Ok(n) => tcp_ev.borrow_mut().push(json!([st, h, "wrote", cid, format!("{id}:{n}")])),
+                                        Err(e) => tcp_ev.borrow_mut().push(json!([st, h, "write_err", cid, format!("{id}:{}", vharness::err_kind(&e))])),
+                                    },
+                                    None => tcp_ev.borrow_mut().push(json!([st, h, "no_conn", cid, format!("{id}")])),
                                 }
                             }
                             _ => {
@@ -301,6 +363,8 @@ fn run_case(case: &Value) -> Value {
         "links": links_log,
         "decisions": decisions,
         "errs": *errs.borrow(),
+        "tcp_recv": *tcp_recv.borrow(),
+        "tcp_ev": *tcp_ev.borrow(),
         "elapsed": sim_elapsed,
         "panic": Value::Null,
     })
